@@ -155,3 +155,23 @@ func rcptsStr(pks [][]byte, hide []bool) string {
 	}
 	return strings.Join(it, ",")
 }
+
+// basicRing: package basic's keyring holding the given box keys among a few others (its
+// GetAllBoxSecretKeys feeds the trial decryption of hidden recipients and of signcryption box recipients)
+func basicRing(keys string, r *SplitMix) *basic.Keyring {
+	kr := basic.NewKeyring()
+	sks, _ := parsePairs(keys)
+	add := func(sk []byte) {
+		var s, p [32]byte
+		copy(s[:], sk)
+		copy(p[:], boxPk(sk))
+		kr.ImportBoxKey(&p, &s)
+	}
+	for _, sk := range sks {
+		add(sk)
+	}
+	for i := 0; i < 3; i++ {
+		add(r.Bytes(32))
+	}
+	return kr
+}
